@@ -929,8 +929,12 @@ def gen_c18_schedule(seed, index, tier):
     def svc_change():
         s = some()
         if s is not None:
-            ops.append({"op": "svc", "c": s, "reset": rng.choice([0, 1, 1]), "svc": rng.choice(SERVICE_POOL) & ~RAW_625 or 0x4,
+            # one change in three arrives together with a captured frame (op_ticksvc)
+            pending = s not in stalled and len(live) > 1 and rng.random() < 0.34
+            ops.append({"op": "ticksvc" if pending else "svc", "c": s, "reset": rng.choice([0, 1, 1]), "svc": rng.choice(SERVICE_POOL) & ~RAW_625 or 0x4,
                         "strict": rng.choice([-1, 0, 1, 2])})
+            if pending:
+                budget[0] -= 1
 
     def leave():
         s = some()
@@ -1355,6 +1359,60 @@ class C18Controller:
             self.signature("L")
             self.last_op = "tick"
             self.await_frame(seq, exp)
+
+    def op_ticksvc(self, op):
+        """A frame is captured and a service request of ONE client arrives while the daemon is not running (SIGSTOP:
+        an injected scheduling delay), so that both are pending when its main loop comes round: the frame is then
+        still queued for the other clients when the request is handled.  "Only frames still queued for a client when
+        that client itself changes services may be dropped": every other client that keeps up must get the frame."""
+        c = self.get(op)
+        if c is None or self.union() == 0 or c.stalled or not c.connected or c.lost or self.rig.variant != "select":
+            # (device variant `thread`: the frame reaches the main loop through the acquisition thread's pipe, not in the
+            # same round; stopping the process there only disturbs the simulated device's blocking read)
+            self.op_tick({"op": "tick", "n": 1})
+            return self.op_svc(dict(op, op="svc"))
+        # The request must not make the daemon reconfigure the device (a frame in flight during a reconfiguration
+        # is not a captured frame): the client gives up services which other clients hold as well, nothing new.
+        others = 0
+        for x in self.procs:
+            if x is not c and x.connected and not (x.lost or x.eof):
+                others |= x.granted
+        keep = c.granted & op["svc"]
+        if keep == 0:
+            keep = c.granted & -c.granted          # lowest service it has
+        if keep == 0 or (c.granted & ~keep) & ~others or (c.granted & RAW_625):
+            return self.op_tick({"op": "tick", "n": 1})
+        op = dict(op, svc=keep, reset=1, strict=0)
+        exp = [x for x in self.expectation() if x is not c]
+        seq = self.rig.ticks
+        ack0 = c.n("svc")
+        self.rig.daemon.send_signal(signal.SIGSTOP)
+        try:
+            self.rig.tick()
+            c.send("svc %d 1 %x %d" % (op["reset"], op["svc"], op["strict"]))
+            time.sleep(0.02)     # the client process writes its request into the socket
+        finally:
+            self.rig.daemon.send_signal(signal.SIGCONT)
+        self.log("tick", seq=seq, expect=[x.name for x in exp], union=self.union(), lock=True)
+        self.out.count("lockstep_ticks")
+        self.out.count("ticks_with_service_request_of_another_client_pending")
+        self.signature("L")
+        self.last_op = "tick"
+        self.wait(lambda: c.n("svc") > ack0, "svc of client %s" % c.name, [c])
+        ev = None
+        for e in reversed(c.events):
+            if e.get("ev") == "svc":
+                ev = e
+                break
+        if c.lost or ev is None or not ev.get("ok"):
+            self.log("svc", slot=op["c"], proc=c.name, ok=False)
+        else:
+            c.granted = int(ev["granted"], 16)
+            c.sub_tick = self.rig.ticks
+            self.out.count("service_changes")
+            self.log("svc", slot=op["c"], proc=c.name, ok=True, granted=c.granted)
+        self.await_frame(seq, exp)
+        self.device_check("service change of %s with a frame pending (0x%x reset %d strict %d)" % (c.name, op["svc"], op["reset"], op["strict"]))
 
     def await_frame(self, seq, exp):
         def done():
